@@ -52,9 +52,8 @@ def rule_compact(ctx):
                 U = (n, st)
     if U is None:
         uq = [norm(c)[:60] for c in calls_in(lp, "unique")]
-        if not uq:
-            raise AnalysisError("_create_return: no unique(...) call inside the loop")
-        ctx.ob("_create_return.unique", False, "no `unique(original_pairs[i])` inside the loop (found %s)" % uq, "unique original indices of row i", node=lp, func=f)
+        ctx.ob("_create_return.unique", False, "no `unique(original_pairs[i])` inside the loop (found %s)" % (uq or "no unique call at all"),
+               "the distinct original indices of row i are computed with unique(): any order of the pairs, every repetition removed", node=lp, func=f)
         return
     u = U[0]
     ufun = dotted(U[1].value.func)
